@@ -35,7 +35,9 @@ pub enum Corrupt {
     /// FMTID, 5 section offset beyond, 6 huge count, 7 misaligned offset, 8
     /// offset out of bounds, 9 unknown type, 10 LPSTR length huge, 11 LPSTR
     /// length 0, 12 no terminator, 13 FILETIME beyond year 9999, 14 code page
-    /// of wrong type, 15 unknown code page id, 16 section size 0, 17 duplicate id
+    /// of wrong type, 15 unknown code page id, 16 section size 0, 17 duplicate id,
+    /// 18..24 contents of the `which`-th string property: "{", last byte FF,
+    /// first byte '{', both, all FF, first byte '}', empty
     Prop { kind: u8, which: u8 },
     Clsid(u8),
     /// give a stream another raw container name, spelled with code units at
@@ -243,7 +245,10 @@ pub fn build(case: &Case) -> Result<Vec<u8>, String> {
                     let find_type = |b: &Vec<u8>, ty: u32| -> Option<usize> {
                         (0..count).map(|i| value_at(b, i)).find(|&at| at + 4 <= b.len() && u32::from_le_bytes([b[at], b[at + 1], b[at + 2], b[at + 3]]) == ty)
                     };
-                    match kind % 18 {
+                    // the `which`-th string property, for the content kinds
+                    let strings: Vec<usize> = (0..count).map(|i| value_at(b, i)).filter(|&at| at + 8 <= b.len() && u32::from_le_bytes([b[at], b[at + 1], b[at + 2], b[at + 3]]) == 30).collect();
+                    let nth_string = if strings.is_empty() { None } else { Some(strings[*which as usize % strings.len()]) };
+                    match kind % 25 {
                         0 => le16(b, 0, 0xfeff),
                         1 => le16(b, 2, 7),
                         2 => le16(b, 6, 9),
@@ -310,6 +315,40 @@ pub fn build(case: &Case) -> Result<Vec<u8>, String> {
                             }
                         }
                         16 => le32(b, so, 0),
+                        // contents of a string property (the getters parse
+                        // some of them: braces of the revision number, digits)
+                        k @ 18..=24 => {
+                            if let Some(at) = nth_string {
+                                let n = u32::from_le_bytes([b[at + 4], b[at + 5], b[at + 6], b[at + 7]]) as usize;
+                                let first = at + 8;
+                                if n >= 2 && first + n <= b.len() {
+                                    let last = first + n - 2;
+                                    match k {
+                                        18 => {
+                                            le32(b, at + 4, 2);
+                                            b[first] = b'{';
+                                            b[first + 1] = 0;
+                                        }
+                                        19 => b[last] = 0xff,
+                                        20 => b[first] = b'{',
+                                        21 => {
+                                            b[first] = b'{';
+                                            b[last] = 0xff;
+                                        }
+                                        22 => {
+                                            for x in b[first..=last].iter_mut() {
+                                                *x = 0xff;
+                                            }
+                                        }
+                                        23 => b[first] = b'}',
+                                        _ => {
+                                            le32(b, at + 4, 1);
+                                            b[first] = 0;
+                                        }
+                                    }
+                                }
+                            }
+                        }
                         _ => {
                             if count >= 2 {
                                 let id0 = u32::from_le_bytes([b[entry(0)], b[entry(0) + 1], b[entry(0) + 2], b[entry(0) + 3]]);
@@ -660,8 +699,12 @@ pub fn case_strategy_with(long_weight: f64) -> impl Strategy<Value = Case> {
             for r in t.rows.iter_mut() {
                 for v in r.iter_mut() {
                     if let crate::refeval::V::Str(s) = v {
-                        if s.len() > 1000 {
-                            s.truncate(100);
+                        if s.len() > 5000 {
+                            let mut cut = 100;
+                            while !s.is_char_boundary(cut) {
+                                cut -= 1;
+                            }
+                            s.truncate(cut);
                         }
                     }
                 }
@@ -690,7 +733,7 @@ fn raw_strategy() -> impl Strategy<Value = RawCase> {
 pub fn run(ctx: &Ctx) -> Report {
     let mut rep = Report::new(
         "exploration",
-        "(1) valid databases from the independent encoder with 0..3 format-level corruption operators: any cell of any catalog or user table replaced (null, all ones, dangling reference, other string, raw zero pattern, high bit), stream bytes overwritten, streams truncated / extended / emptied / removed / replaced by a storage of the same name / renamed to raw names spelled with code units at the boundaries of the name-packing ranges, pool header (unknown code page, flipped reference width), pool entries (length beyond the data, long-string escape, zero refcount with text, under-count, live empty entry, maximal refcount), property set (BOM, version, OS, reserved, FMTID, section offset, count, misaligned / out-of-bounds offsets, unknown type, LPSTR length huge / 0 / unterminated, FILETIME beyond year 9999, code page of wrong type / unknown id, section size 0, duplicate id), wrong root CLSID; (2) arbitrary bytes and byte-level edits / truncations of valid files. On each the battery runs: Package::open; if Ok every read operation (tables, columns, select and full iteration with Row indexing, inner and left joins of small tables, summary getters, stream listing and reading, signature query) and every mutating operation (insert / update / delete on every table with schema-derived values, create and drop table, stream write / remove, summary setters, code-page changes) followed by flush. Oracle: every call returns; panics (with location), more than a size-proportional budget of I/O calls, and a single allocation above 64 MiB + 16 x file size are violations. Non-trivial = the file passes the container layer (reaches MSI-level parsing); distinct by file hash. The thorough tier adds libFuzzer campaigns (fuzz/) and the FFI worker.",
+        "(1) valid databases from the independent encoder with 0..3 format-level corruption operators: any cell of any catalog or user table replaced (null, all ones, dangling reference, other string, raw zero pattern, high bit), stream bytes overwritten, streams truncated / extended / emptied / removed / replaced by a storage of the same name / renamed to raw names spelled with code units at the boundaries of the name-packing ranges, pool header (unknown code page, flipped reference width), pool entries (length beyond the data, long-string escape, zero refcount with text, under-count, live empty entry, maximal refcount), property set (BOM, version, OS, reserved, FMTID, section offset, count, misaligned / out-of-bounds offsets, unknown type, LPSTR length huge / 0 / unterminated, string contents a lone or unbalanced brace / non-UTF-8 bytes / empty, FILETIME beyond year 9999, code page of wrong type / unknown id, section size 0, duplicate id), wrong root CLSID; (2) arbitrary bytes and byte-level edits / truncations of valid files. On each the battery runs: Package::open; if Ok every read operation (tables, columns, select and full iteration with Row indexing, inner and left joins of small tables, summary getters, stream listing and reading, signature query) and every mutating operation (insert / update / delete on every table with schema-derived values, create and drop table, stream write / remove, summary setters, code-page changes) followed by flush. Oracle: every call returns; panics (with location), more than a size-proportional budget of I/O calls, and a single allocation above 64 MiB + 16 x file size are violations. Non-trivial = the file passes the container layer (reaches MSI-level parsing); distinct by file hash. The thorough tier adds libFuzzer campaigns (fuzz/) and the FFI worker.",
     );
     rep.assumptions.push("a pure CPU loop would surface as a watchdog exit 2, not as a violation".into());
     let mut st = Stats::new();
